@@ -255,6 +255,59 @@ def adjacent_sql_family():
     return out
 
 
+def merge_correspondence(ctx):
+    """utils.datastructures.merge_dicts on generated batch infos of the shape _build_batches produces
+    ({'task_evolutions': {task: {'evolutions', 'mutations'}}, 'new_models_tasks': [...]}), 2-5 consecutive nodes folded
+    into the first, against the Lean model `mergeBatch`; and, on the real result alone, the rule C14 rests on: every
+    task's evolutions come out in node order"""
+    import random
+    from collections import OrderedDict
+    from django_evolution.utils.datastructures import merge_dicts
+    rng = random.Random(ctx.seed * 211 + 5)
+    n = 200 if ctx.tier == 'quick' else 4000
+    tasks_pool = ['vapp', 'lapp', 'wapp']
+    reqs, reals, cases = [], [], []
+    for i in range(n):
+        infos = []
+        counter = 0
+        for _ in range(rng.randint(2, 5)):
+            ts = []
+            for t in rng.sample(tasks_pool, rng.randint(0, 3)):
+                k = rng.randint(0, 2)
+                evs = ['%s_e%d' % (t, counter + j) for j in range(k)]
+                counter += k
+                ts.append([t, evs, ['mut(%s)' % e for e in evs]])
+            infos.append({'tasks': ts, 'new_models': rng.sample(tasks_pool, rng.randint(0, 1))})
+        if i == 0:
+            infos = [{'tasks': [['vapp', ['e1'], ['m1']]], 'new_models': []},
+                     {'tasks': [['lapp', ['x1'], []], ['vapp', ['e2'], ['m2']]], 'new_models': ['lapp']}]
+        real = None
+        for b in infos:
+            d = {'task_evolutions': OrderedDict((t, {'evolutions': list(ev), 'mutations': list(mu)}) for t, ev, mu in b['tasks']),
+                 'new_models_tasks': list(b['new_models'])}
+            if real is None:
+                real = d
+            else:
+                merge_dicts(real, d)
+        impl = {'tasks': [[t, v['evolutions'], v['mutations']] for t, v in real['task_evolutions'].items()],
+                'new_models': real['new_models_tasks']}
+        cases.append(infos)
+        reals.append(impl)
+        reqs.append({'op': 'merge_batches', 'infos': infos})
+    outs = ctx.driver.ask(reqs) if ctx.driver else [None] * n
+    for infos, impl, out in zip(cases, reals, outs):
+        ctx.count('merge_cases')
+        if out is not None:
+            ctx.corr_case('batch_merge', out == impl, case={'infos': infos}, model=out, impl=impl)
+        for t in tasks_pool:
+            want = [e for b in infos for tt, ev, _ in b['tasks'] if tt == t for e in ev]
+            got = [e for tt, ev, _ in impl['tasks'] if tt == t for e in ev]
+            if want != got:
+                ctx.fail(None, 'merging consecutive graph nodes into one batch puts the evolutions of %s in the order %r, '
+                         'the nodes came in the order %r' % (t, got, want), {'scenario': 'merge_dicts', 'infos': infos})
+                break
+
+
 def flat(groups):
     return [s for g in groups for s in g[1]]
 
@@ -285,6 +338,7 @@ def run(ctx):
     evorig.setup()
     from .c16 import load_correspondence
     load_correspondence(ctx)
+    merge_correspondence(ctx)
     quick = ctx.tier == 'quick'
     seeds = [1, 2, 3, 4] if quick else list(range(1, 17))
     ctx.rule = ('upgrades V0 -> V1 of one generated app (1-3 mutations incl. ChangeMeta, rows present) plus the '
